@@ -150,7 +150,11 @@ func genC04(t *rapid.T) *c04Scenario {
 		m.afterEvent(nm, nil)
 	}
 	for i := 0; i < n; i++ {
-		switch rapid.SampledFrom([]string{"reg", "reg", "reg", "remove", "event", "event", "event", "arm", "arm", "race"}).Draw(t, "op") {
+		switch rapid.SampledFrom([]string{"reg", "reg", "reg", "remove", "event", "event", "event", "arm", "arm", "race", "track"}).Draw(t, "op") {
+		case "track":
+			// enabling / disabling state tracking adds and removes internal handlers on a live client:
+			// the user's handler sets must be unaffected
+			sc.Ops = append(sc.Ops, c04Op{Op: "track"})
 		case "reg":
 			reg(kind(), name())
 		case "remove":
@@ -463,6 +467,12 @@ func runC04(sc *c04Scenario) *Violation {
 	}
 	for _, o := range sc.Ops[sc.PreRegs:] {
 		switch o.Op {
+		case "track":
+			if r.tc.C.StateTracker() != nil {
+				r.tc.C.DisableStateTracking()
+			} else {
+				r.tc.C.EnableStateTracking()
+			}
 		case "reg":
 			r.register(o.ID, o.Kind, o.Name)
 			m.hs[o.ID] = &c04H{id: o.ID, name: strings.ToLower(o.Name), bg: o.Kind == "bg", alive: true}
